@@ -234,15 +234,17 @@ def world(quick=1000, thorough=1500):
 
 PROPS["C08"] = {
     "statement": "C08.every_history / step_preserves_inv (each cell is free, shared by exactly its n live shared guards, or exclusive with exactly one live guard, after every legal history — histories include closures that take guards and panic, and &mut calls that meet a panic of user code), C08.outcome_spec (None iff absent, borrow panic iff an incompatible guard is alive, a guard otherwise), C08.panic_frame (+ unwinding of composite fetches), C08.drop_exact, C08.scope_frame / scope_restores / unwind_eq_return (a closure that takes guards of any kind and returns, panics or is refused a fetch half-way leaves every cell and every outer guard as they were), C08.entry_guard_unwinds, C08.exec_closure_panics",
-    "engines": [world()],
-    "aspects": ["outcome", "state"],
+    "engines": [world(),
+                # the borrow word itself: the transcription of atomic_refcell's four operations against the real cell, word for word
+                {"engine": "cellword", "args": {}, "quick": {"cases": 400, "stress-rounds": 2}, "thorough": {"cases": 20000, "max-len": 80, "stress-rounds": 8, "stress-ops": 400000}}],
+    "aspects": ["outcome", "state", "cellword"],
     # the compile-time half of "never an aliasing guard": what is handed out borrows from the guard / the world
     "probes": [{"dir": "probes/meta_ref_outlives_guard", "expect": "fail", "grep": "error[E0505]", "single": True, "why": "the trait object MetaTable::get returns must not outlive the guard it was derived from"},
                {"dir": "probes/meta_two_mut_refs", "expect": "fail", "grep": "error[E0499]", "single": True, "why": "MetaTable::get_mut must not hand out two live exclusive references from one guard"},
                {"dir": "probes/guard_outlives_world", "expect": "fail", "grep": "error[E0505]", "single": True, "why": "a guard must not outlive the world"},
                {"dir": "probes/entry_excludes_fetch", "expect": "fail", "grep": "error[E0502]", "single": True, "why": "no guard can be taken while an entry borrows the world exclusively"},
                {"dir": "probes/world_guards_ok", "expect": "compile", "why": "control: the same calls in a legal order compile"}],
-    "assumptions": [CELL + "; each cell operation (try_borrow, try_borrow_mut, guard drop) is one atomic read-modify-write on the borrow word (Model/CellWord.lean transcribes atomic_refcell 0.1.14 l.196-319 by hand); C08.any_interleaving proves that every sequence of such steps - hence every interleaving of any number of threads - answers what the abstract borrow state answers; assumed: the transcription, single-location coherence of atomics, no refcount overflow; the stress part of the engine checks on the real cell that no two incompatible guards ever coexist", TYPES],
+    "assumptions": [CELL + "; each cell operation (try_borrow, try_borrow_mut, guard drop) is one atomic read-modify-write on the borrow word (Model/CellWord.lean transcribes atomic_refcell 0.1.14 l.196-319 by hand); C08.any_interleaving proves that every sequence of such steps - hence every interleaving of any number of threads - answers what the abstract borrow state answers; the transcription is compared with the real cell after every step of random sequential histories, answer and raw borrow word (engine cellword); assumed: single-location coherence of atomics (a many-thread history is a sequence of these steps), no refcount overflow; many-thread stress rounds check on the real cell that no two incompatible guards ever coexist", TYPES],
 }
 PROPS["C09"] = {
     "statement": "C09.refines_state / refines_out (every operation commutes with abs : World -> (ResId -> Option Token) and answers what the map answers), C09.typed_linear_invariant (type tag = key type; conservation of values), C09.mismatch_panics, C09.linear / dropped_exactly_once — all over histories that include values whose Drop panics and closures that panic; C09.insert_replaces_when_drop_panics, or_insert_occupied_drop_panics, or_insert_with_closure_panics, entry_stores_before_caller_panics, dropReturned_keeps_linear, dropWorld_panic_at_most_once (the interrupted drop of the world drops or leaks each value, never twice)",
@@ -261,7 +263,7 @@ TEXT = {
     "C05": "Proof: every trace of the parallel plan has the effect of the unique sequential trace, provided events of non-conflicting systems commute - which is proved for the harness's order-sensitive systems (C05_harness_commutes); repetition by induction. Tied by comparing real parallel dispatches with a sequentially dispatched twin and with the model's evaluation, with and without the parallel feature.",
     "C06": "Proof by structural induction over the system-data type tree: fetch borrows exactly the reported present resources (multisets), fails iff a required resource is absent or a borrow conflicts and then releases everything, drop releases, reads/writes/setup are concatenation/composition over members. Tied by 229 real Rust types (all tuple arities 1-26, all member kinds at all positions, nestings, derived structs incl. member-generic ones) x presence patterns. Assumes parametricity of the generic tuple impls.",
     "C07": "Proof: the accessor add_batch computes is exactly controller data + inner declarations; conflicts lift; Level/BodyOK compose so that isolation, order and exactly-once hold for dispatchers with batches nested to any depth, for the tagged builder the driver runs. Tied by batch-heavy layouts and traces. PARTIAL for KF1 inputs.",
-    "C08": "Proof: the borrow invariant (free / n shared guards / one exclusive guard) is preserved by every operation over every legal history; outcome_spec, panic_frame, drop_exact; scope_frame: a closure under catch_unwind that takes guards of any kind (typed, by-id, tuple fields, meta-iterator items, clones) and returns, panics, or is refused a fetch after partial acquisition gives back exactly what it took (unwinding = return); entry / exec callers that panic holding the guard. Tied by random histories incl. such closures (also while outer guards on the same resources are alive) with a probe of every cell - state and exact shared count - after every operation; threads that panic while holding guards in the many-thread part. The many-thread clause: the four word-level operations of atomic_refcell are transcribed (Model/CellWord.lean) and proved to refine the abstract borrow state over every sequence of atomic steps (any_interleaving); PARTIAL in that the transcription of that dependency is tied to the real cell only by stress runs with shadow counters.",
+    "C08": "Proof: the borrow invariant (free / n shared guards / one exclusive guard) is preserved by every operation over every legal history; outcome_spec, panic_frame, drop_exact; scope_frame: a closure under catch_unwind that takes guards of any kind (typed, by-id, tuple fields, meta-iterator items, clones) and returns, panics, or is refused a fetch after partial acquisition gives back exactly what it took (unwinding = return); entry / exec callers that panic holding the guard. Tied by random histories incl. such closures (also while outer guards on the same resources are alive) with a probe of every cell - state and exact shared count - after every operation; threads that panic while holding guards in the many-thread part. The many-thread clause: the four word-level operations of atomic_refcell are transcribed (Model/CellWord.lean) and proved to refine the abstract borrow state over every sequence of atomic steps (any_interleaving); The transcription is tied to the real cell word for word (answers and the raw borrow word after every step of sequential histories); PARTIAL in that 'a concurrent history is a sequence of these atomic steps' is the memory model's guarantee, not something proved here.",
     "C09": "Proof: refinement of the world to a map ResId -> token (every operation commutes with the abstraction and answers what the map answers), type-tag invariant, mismatch panics leave the world unchanged, value accounting (each token in exactly one of world / returned / dropped) - also when the Drop of a value panics where the world drops it (insert replacing: the new value is in place first; or_insert on an occupied slot; the caller dropping a removed value; the world's own drop, which may leak but never drops twice) and when or_insert_with's closure or the caller holding the entry guard panics. Tied by random histories incl. mismatching type arguments with drop counters and a one-shot panicking Drop armed at each of those places, the accounting checked from the drop log before any stored value is looked at again.",
     "C10": "Proof: every stage the code's insertion_target skips is justified by a conflicting earlier system or a dependency at/behind it (on the five tables of the code, for every registration sequence, after repair D3); compatible dependency-free systems share one stage; max_threads is the widest stage. Tied by exact layout comparison and max_threads().",
     "C11": "Proof about a pool MODEL (assumption about rayon): with >= n idle workers n rendezvous systems always meet and never deadlock; with fewer they do deadlock (the executable prediction is exact); plus a model of builder.rs's pool slots: which pool every dispatcher (top level, batch, nested batch) runs on - the default pool has rayon's default size whatever dispatcher created it, a supplied pool serves the top level and its batches. PARTIAL by nature: the tie is the complete enumeration of widths 2-16 x pool sizes x {user pool, default pool, batch-inner, async, foreign caller} and generated plans x configurations (hints, group sizes, multi-stage, nested batches, default pool sized by the harness in child processes, pools given early / late / to batch builders, build / build_async) with real rendezvous runs on the stages of the implementation's own plan, which must equal the model's plan; plus a model of the async dispatcher over call sequences (the caller, never a pool thread, waits for the previous dispatch; every dispatch has the whole pool), tied by generated sequences of dispatch / wait / wait_without_tl / running / world with the wide stage behind a slow first stage.",
